@@ -53,12 +53,32 @@ def load_path(xml, prefix, root, path):
         return definitions.XtcePacketDefinition.from_xtce(path, xtce_ns_prefix=prefix, root_container_name=root)
 
 
+def mix_prefixes(xml, nsmap, prefix):
+    """When the namespace map binds a second prefix `alt` to the document's XTCE namespace, some kinds of element are
+    spelled with it (chosen from the text, so the same request always gives the same text): one namespace, two prefixes in
+    one document. lxml serialises with one prefix per namespace, hence the textual step."""
+    main = nsmap.get(prefix)
+    if "alt" not in nsmap or main is None or nsmap["alt"] != main:
+        return xml
+    import random, zlib
+    rng = random.Random(zlib.crc32(xml))
+    pre = (prefix + ":") if prefix else ""
+    names = ["SequenceContainer", "Parameter", "IntegerParameterType", "Comparison", "EntryList", "ParameterRefEntry",
+             "IntegerDataEncoding", "BaseContainer", "EnumeratedParameterType", "Term", "ContainerSet", "ParameterSet",
+             "RestrictionCriteria", "Enumeration", "LongDescription"]
+    for nm in rng.sample(names, rng.randrange(2, 7)):
+        for a, b in ((f"<{pre}{nm} ", f"<alt:{nm} "), (f"<{pre}{nm}>", f"<alt:{nm}>"), (f"<{pre}{nm}/>", f"<alt:{nm}/>"),
+                     (f"</{pre}{nm}>", f"</alt:{nm}>")):
+            xml = xml.replace(a.encode(), b.encode())
+    return xml
+
+
 def impl_load(line, path=None):
     t = parse_sx(line)
     prefix = None if t[1] == "-" else uS(t[1])
     nsmap = xmlutil.parse_nsmap(t[2])
     root = uS(t[3])
-    xml = xmlutil.to_text(t[4], nsmap)
+    xml = mix_prefixes(xmlutil.to_text(t[4], nsmap), nsmap, prefix)
     try:
         d = load_text(xml, prefix, root) if path is None else load_path(xml, prefix, root, path)
     except RecursionError:
